@@ -63,7 +63,7 @@ def plan(tier, seed):
         cases.append({'tr': 'run', 'fate': f, 'path': 'run', 'u': (f[1] % 2 == 0)})
     for rep in range(3 if tier == 'quick' else 40):
         for op in INFLICT:
-            for disp in ('normal', 'ignhup'):
+            for disp in ('normal', 'ignhup', 'ignhuponly'):
                 cases.append({'tr': 'inflict', 'fate': ('signal', 0), 'path': op, 'disp': disp, 'fast': rep % 2 == 0, 'rep': rep})
     rng.shuffle(cases)
     return [{'cases': cases[a:b], 'shard': i, 'seed': seed} for i, (a, b) in enumerate(split_range(len(cases), 16))]
@@ -166,7 +166,7 @@ def inflicted_case(case, acc, rng):
     signals): as soon as the call during which the kernel reported the death has returned, the attributes must say so"""
     import ptyprocess.ptyprocess as pp
     op, disp = case['path'], case['disp']
-    pup = Puppet(opts=['ignhup'] if disp == 'ignhup' else [])
+    pup = Puppet(opts=[disp] if disp in ('ignhup', 'ignhuponly') else [])
     c = None
     real = pp.os
     try:
